@@ -2,20 +2,23 @@
 # tools/sweep_mutants.sh — apply every seeded change (/verif/seeded/<ID>-mN/patch.diff) to /repo in turn, run its
 # property's quick check, record exit code and signatures in /verif/.build/mutant_sweep.jsonl, revert.
 # optional arguments: names to run (e.g. C01-m7 C03-m8); default all. Results are appended when names are given.
-OUT=/verif/.build/mutant_sweep.jsonl
-if [ $# -eq 0 ]; then : > $OUT; DIRS=(/verif/seeded/C*); else DIRS=(); for n in "$@"; do DIRS+=(/verif/seeded/$n); done; fi
-cd /repo && git diff --quiet || { echo "repo dirty"; exit 9; }
+V=${DGV_VERIF_DIR:-/verif}; R=${DGV_REPO_DIR:-/repo}
+OUT=$V/.build/mutant_sweep.jsonl
+if [ $# -eq 0 ]; then : > $OUT; DIRS=($V/seeded/C*); else DIRS=(); for n in "$@"; do DIRS+=($V/seeded/$n); done; fi
+cd $R && git diff --quiet || { echo "repo dirty"; exit 9; }
 for dir in "${DIRS[@]}"; do
   NAME=$(basename $dir); ID=${NAME%%-*}; M=${NAME##*-}
-  cd /repo
+  cd $R
   if ! git apply "$dir/patch.diff" 2>/dev/null; then
     echo "{\"id\":\"$ID\",\"m\":\"$M\",\"status\":\"apply-failed\"}" >> $OUT; continue
   fi
-  LOG=/verif/.build/mut_$ID$M.log
-  (cd /verif && DGV_CASE_DEADLINE=${DGV_CASE_DEADLINE:-60} ./check $ID quick > $LOG 2>&1); RC=$?
-  git -C /repo checkout -- .
+  LOG=$V/.build/mut_$ID$M.log
+  # a seeded change may name another property's check as the one that sees it (meta.json "run_check")
+  CK=$(python3 -c "import json,sys; print(json.load(open(sys.argv[1])).get('run_check') or sys.argv[2])" "$dir/meta.json" "$ID")
+  (cd $V && DGV_CASE_DEADLINE=${DGV_CASE_DEADLINE:-60} ./check $CK quick > $LOG 2>&1); RC=$?
+  git -C $R checkout -- .
   SIGS=$(grep -E "^  signature:" $LOG | sed 's/^  signature: //' | sort -u | head -8 | python3 -c "import sys,json; print(json.dumps([l.strip() for l in sys.stdin]))")
-  echo "{\"id\":\"$ID\",\"m\":\"$M\",\"exit\":$RC,\"signatures\":$SIGS}" >> $OUT
+  echo "{\"id\":\"$ID\",\"m\":\"$M\",\"check\":\"$CK\",\"exit\":$RC,\"signatures\":$SIGS}" >> $OUT
   echo "$ID/$M exit=$RC $SIGS" | cut -c1-250
 done
-(cd /verif/harness && cargo build --offline >/dev/null 2>&1)
+(cd $V/harness && cargo build --offline >/dev/null 2>&1)
